@@ -100,3 +100,25 @@ Proof. repeat split; reflexivity. Qed.
     The driver passes this flag to the model on every run; a source without the re-check breaks this lemma. *)
 Lemma tie_recheck : gen_recheck = true.
 Proof. reflexivity. Qed.
+
+(** the expressions [prune] is built from, read off prune_old_logs: which test each configured affix goes through
+    ([matches] = String.prefix / ends_with / is_date_name), the stable sort by [created], the count taken
+    ([List.length ms - (m - 1)] oldest) *)
+Lemma tie_prune_expressions :
+  gen_prune_pred = [("prefix", "not starts_with"); ("suffix", "not ends_with"); ("neither", "Date::parse is_err")] /\
+  gen_prune_sort_expr = "sort_by_key by *key of metadata.created()" /\
+  gen_prune_count_expr = "take files.len() - (max_files - 1)".
+Proof. repeat split; reflexivity. Qed.
+
+(** advance_date: a compare_exchange from the loaded value to [next_date(now) as usize or 0] ([set_next s (next_usize (rot c) t)]
+    guarded by [next s =? n] in the model; the computation of next_date(now) comes first and may panic: [next_ok]) *)
+Lemma tie_advance_stored :
+  gen_advance_stored = "compare_exchange(current -> next_date) where next_date = self.rotation.next_date(&now).map(|date| date.unix_timestamp() as usize).unwrap_or(0)".
+Proof. reflexivity. Qed.
+
+(** Builder: the defaults (a [config] with Never / None / None / None) and the setters (an empty prefix or suffix
+    is no prefix / suffix - the driver builds [config]s the same way; max_log_files n = Some n) *)
+Lemma tie_builder :
+  gen_builder_defaults = [("rotation", "NEVER"); ("prefix", "None"); ("suffix", "None"); ("max_files", "None")] /\
+  gen_builder_setters = [("filename_prefix", "empty is None"); ("filename_suffix", "empty is None"); ("max_log_files", "Some n")].
+Proof. split; reflexivity. Qed.
